@@ -78,3 +78,20 @@ Print Assumptions C02_densities_keep_constraint_ratios.
 Example C02_hypotheses_satisfiable :
   (0 < 9/10 < 1) /\ Forall (fun x => 0 < x) [1; 2] /\ List.length [1; 2] = List.length [-5; 7].
 Proof. split; [lra|]. split; [repeat constructor; lra | reflexivity]. Qed.
+
+(* every reachable iterate is strictly positive: any starting estimate with positive entries, any number of relaxed updates,
+   any proposals of the right length (whatever the linear solver returns), any governor factors in (0, 1) *)
+Theorem C02_every_iterate_positive : forall (N0 : list R) (steps : list (R * list R)),
+  Forall (fun x => 0 < x) N0 ->
+  Forall (fun st => 0 < fst st < 1 /\ List.length (snd st) = List.length N0) steps ->
+  Forall (fun x => 0 < x) (run_iterates N0 steps).
+Proof. intros N0 steps H1 H2. exact (proj1 (run_iterates_positive steps N0 H1 H2)). Qed.
+Print Assumptions C02_every_iterate_positive.
+
+(* constraint residuals along any run (proposals satisfy the row, as every solution of the Newton system does): the residual
+   of the returned iterate is the initial one times a factor in [0, 1] — it never grows and never changes sign *)
+Theorem C02_run_residual_contracts : forall (c : list R) (bk : R) (steps : list (R * list R)) (N0 : list R),
+  Forall (fun x => 0 < x) N0 -> List.length c = List.length N0 ->
+  Forall (fun st => 0 < fst st < 1 /\ List.length (snd st) = List.length N0 /\ dotR c (snd st) = bk) steps ->
+  exists rho, 0 <= rho <= 1 /\ dotR c (run_iterates N0 steps) - bk = rho * (dotR c N0 - bk).
+Proof. intros c bk steps N0. apply run_residual_contracts. Qed.
